@@ -6,6 +6,7 @@ import (
 	"math/rand/v2"
 	"os"
 	"regexp"
+	"runtime/debug"
 	"sort"
 	"strconv"
 	"strings"
@@ -66,6 +67,9 @@ func (o op) String() string {
 		ctor := []string{"NewBatch()", "NewBatchWithSize(" + strconv.Itoa(o.N*16) + ")", "NewIndexedBatch()", "NewIndexedBatchWithSize(" + strconv.Itoa(o.N*16) + ")"}[o.N]
 		return []string{"", "db.NewSyncBatch ", "db.NewBufferBatch "}[o.Wrap] + tgt + "." + ctor
 	case "update", "write":
+		if o.Obj != "store" {
+			break
+		}
 		var subs []string
 		for _, s := range o.Sub {
 			subs = append(subs, s.String())
@@ -85,6 +89,10 @@ type gen struct {
 	pool  []string
 	nval  int
 	steer map[string]bool // shapes this sequence steers around (open known findings)
+	// flushy sequences force pebble memtable flushes (through Impl(), not part of Juno's
+	// interface) and in exchange never use the empty key: pebble v2.1.6 panics on a
+	// background goroutine when it flushes a memtable whose only user key is empty.
+	flushy bool
 }
 
 func (g *gen) abyte() byte {
@@ -109,6 +117,9 @@ func (g *gen) rawKey(maxLen int) string {
 		l = 4
 	}
 	l = min(l, maxLen)
+	if g.flushy && l == 0 {
+		l = 1
+	}
 	b := make([]byte, l)
 	for i := range b {
 		b[i] = g.abyte()
@@ -132,6 +143,9 @@ func (g *gen) mkPool() {
 			case 1: // a proper prefix of another key
 				if len(base) > 0 {
 					k = base[:g.rng.IntN(len(base))]
+				}
+				if g.flushy && k == "" {
+					continue
 				}
 			default: // sibling: same prefix, different last byte
 				if len(base) > 0 {
@@ -370,7 +384,10 @@ func (g *gen) next(m *mdl) []op {
 					kind = "update"
 				}
 				return []op{{Obj: "store", Kind: kind, Sub: g.subOps(indexed), Fail: rng.IntN(3) == 0}}
-			case y < 93:
+			case y < 96:
+				if !g.flushy {
+					continue
+				}
 				return []op{{Obj: "store", Kind: "flush"}}
 			default:
 				continue
@@ -550,6 +567,7 @@ type real struct {
 	snaps   []db.Snapshot
 	iters   []db.Iterator
 	lastErr string // text of the last unexpected error, for the witness
+	nilEmpty bool  // pass empty keys / prefixes as nil instead of []byte{}
 }
 
 type nopLogger struct{}
@@ -583,6 +601,19 @@ func openBackend(name string) (*real, error) {
 		return nil, err
 	}
 	return r, nil
+}
+
+// raceBuild is set by TestC15. Under the race build tag pebble v2 enables its internal
+// test invariants, one of which (testingDisableSeekOpt) indexes key[0] of a non-nil empty
+// key and panics; that is test-only code of the library, so the race binary passes empty
+// keys/prefixes as nil. The plain binary uses nil in even cases and []byte{} in odd ones.
+var raceBuild bool
+
+func (r *real) bs(s string) []byte {
+	if s == "" && (raceBuild || r.nilEmpty) {
+		return nil
+	}
+	return []byte(s)
 }
 
 func quiet(f func()) {
@@ -647,10 +678,11 @@ func iterRes(it db.Iterator, ret bool) string {
 	return fmt.Sprintf("at %x=%x", k, v)
 }
 
-func realGet(rd db.KeyValueReader, k string, fail bool, note func(error)) string {
+func realGet(r *real, rd db.KeyValueReader, k string, fail bool) string {
+	note := r.note
 	calls := 0
 	var got []byte
-	err := rd.Get([]byte(k), func(v []byte) error {
+	err := rd.Get(r.bs(k), func(v []byte) error {
 		calls++
 		got = append([]byte{}, v...)
 		if fail {
@@ -674,8 +706,9 @@ func realGet(rd db.KeyValueReader, k string, fail bool, note func(error)) string
 	return c
 }
 
-func realHas(rd db.KeyValueReader, k string, note func(error)) string {
-	ok, err := rd.Has([]byte(k))
+func realHas(r *real, rd db.KeyValueReader, k string) string {
+	note := r.note
+	ok, err := rd.Has(r.bs(k))
 	if err != nil {
 		note(err)
 		return "err"
@@ -683,8 +716,9 @@ func realHas(rd db.KeyValueReader, k string, note func(error)) string {
 	return fmt.Sprintf("has=%v", ok)
 }
 
-func realScan(rd db.KeyValueReader, prefix string, ub, reverse bool, note func(error)) string {
-	it, err := rd.NewIterator([]byte(prefix), ub)
+func realScan(r *real, rd db.KeyValueReader, prefix string, ub, reverse bool) string {
+	note := r.note
+	it, err := rd.NewIterator(r.bs(prefix), ub)
 	if err != nil {
 		note(err)
 		return "err"
@@ -733,11 +767,11 @@ func (r *real) batchOp(b *rBatch, o *op) string {
 	if b.buf != nil {
 		switch o.Kind {
 		case "put":
-			return errClass(b.buf.Put([]byte(o.K), []byte(o.V)))
+			return errClass(b.buf.Put(r.bs(o.K), r.bs(o.V)))
 		case "del":
-			return errClass(b.buf.Delete([]byte(o.K)))
+			return errClass(b.buf.Delete(r.bs(o.K)))
 		case "get", "getcberr":
-			return realGet(b.buf, o.K, o.Kind == "getcberr", r.note)
+			return realGet(r, b.buf, o.K, o.Kind == "getcberr")
 		case "bufflush":
 			return errClass(b.buf.Flush())
 		case "write":
@@ -758,11 +792,11 @@ func (r *real) batchOp(b *rBatch, o *op) string {
 	}
 	switch o.Kind {
 	case "put":
-		return ec(b.w.Put([]byte(o.K), []byte(o.V)))
+		return ec(b.w.Put(r.bs(o.K), r.bs(o.V)))
 	case "del":
-		return ec(b.w.Delete([]byte(o.K)))
+		return ec(b.w.Delete(r.bs(o.K)))
 	case "delrange":
-		return ec(b.w.DeleteRange([]byte(o.K), []byte(o.E)))
+		return ec(b.w.DeleteRange(r.bs(o.K), r.bs(o.E)))
 	case "size":
 		s := b.w.Size()
 		if s < b.lastSize {
@@ -771,11 +805,11 @@ func (r *real) batchOp(b *rBatch, o *op) string {
 		b.lastSize = s
 		return "size=" + strconv.Itoa(s)
 	case "get", "getcberr":
-		return realGet(b.r, o.K, o.Kind == "getcberr", r.note)
+		return realGet(r, b.r, o.K, o.Kind == "getcberr")
 	case "has":
-		return realHas(b.r, o.K, r.note)
+		return realHas(r, b.r, o.K)
 	case "scan", "rscan":
-		return realScan(b.r, o.K, o.UB, o.Kind == "rscan", r.note)
+		return realScan(r, b.r, o.K, o.UB, o.Kind == "rscan")
 	case "write":
 		b.done = true
 		return ec(b.w.Write())
@@ -790,6 +824,7 @@ func (r *real) do(o *op) (res string) {
 	defer func() {
 		if p := recover(); p != nil {
 			res = fmt.Sprintf("panic: %v", p)
+			r.lastErr = string(debug.Stack())
 		}
 	}()
 	st := r.store
@@ -804,24 +839,24 @@ func (r *real) do(o *op) (res string) {
 	case "store":
 		switch o.Kind {
 		case "put":
-			return ec(st.Put([]byte(o.K), []byte(o.V)))
+			return ec(st.Put(r.bs(o.K), r.bs(o.V)))
 		case "del":
-			return ec(st.Delete([]byte(o.K)))
+			return ec(st.Delete(r.bs(o.K)))
 		case "delrange":
-			return ec(st.DeleteRange([]byte(o.K), []byte(o.E)))
+			return ec(st.DeleteRange(r.bs(o.K), r.bs(o.E)))
 		case "get", "getcberr":
-			return realGet(st, o.K, o.Kind == "getcberr", r.note)
+			return realGet(r, st, o.K, o.Kind == "getcberr")
 		case "has":
-			return realHas(st, o.K, r.note)
+			return realHas(r, st, o.K)
 		case "scan", "rscan":
-			return realScan(st, o.K, o.UB, o.Kind == "rscan", r.note)
+			return realScan(r, st, o.K, o.UB, o.Kind == "rscan")
 		case "flush":
 			if f, ok := st.Impl().(interface{ Flush() error }); ok {
 				return ec(f.Flush())
 			}
 			return "ok"
 		case "iter":
-			it, err := st.NewIterator([]byte(o.K), o.UB)
+			it, err := st.NewIterator(r.bs(o.K), o.UB)
 			if err != nil {
 				r.iters = append(r.iters, nil)
 				return ec(err)
@@ -888,7 +923,7 @@ func (r *real) do(o *op) (res string) {
 	case "batch":
 		b := r.batches[o.ID]
 		if o.Kind == "iter" {
-			it, err := b.r.NewIterator([]byte(o.K), o.UB)
+			it, err := b.r.NewIterator(r.bs(o.K), o.UB)
 			if err != nil {
 				r.iters = append(r.iters, nil)
 				return ec(err)
@@ -901,13 +936,13 @@ func (r *real) do(o *op) (res string) {
 		s := r.snaps[o.ID]
 		switch o.Kind {
 		case "get", "getcberr":
-			return realGet(s, o.K, o.Kind == "getcberr", r.note)
+			return realGet(r, s, o.K, o.Kind == "getcberr")
 		case "has":
-			return realHas(s, o.K, r.note)
+			return realHas(r, s, o.K)
 		case "scan", "rscan":
-			return realScan(s, o.K, o.UB, o.Kind == "rscan", r.note)
+			return realScan(r, s, o.K, o.UB, o.Kind == "rscan")
 		case "iter":
-			it, err := s.NewIterator([]byte(o.K), o.UB)
+			it, err := s.NewIterator(r.bs(o.K), o.UB)
 			if err != nil {
 				r.iters = append(r.iters, nil)
 				return ec(err)
@@ -924,7 +959,7 @@ func (r *real) do(o *op) (res string) {
 		case "first":
 			return iterRes(it, it.First())
 		case "seek":
-			return iterRes(it, it.Seek([]byte(o.K)))
+			return iterRes(it, it.Seek(r.bs(o.K)))
 		case "next":
 			return iterRes(it, it.Next())
 		case "prev":
@@ -1046,9 +1081,14 @@ func (c *collector) report(r *lib.Run) {
 	}
 }
 
-func classify(o *op, backend, want, got string, variantRes map[int]string) string {
+func classify(o *op, backend, want, got string, variantRes map[int]string, snapCbErr bool) string {
 	if o.Obj == "snap" && o.Kind == "has" && want == "has=false" && got == "err" {
 		return "snapshot-has-missing-key:" + backend
+	}
+	if o.Obj == "store" && o.Kind == "close" && want == "ok" && snapCbErr {
+		// the only thing left open when the store is closed is whatever a Snapshot.Get
+		// whose callback returned an error did not release
+		return "store-close-fails-after-snapshot-get-with-failing-callback:" + backend
 	}
 	for _, f := range variantOrder {
 		if vr, ok := variantRes[f]; ok && match(vr, got) {
@@ -1063,7 +1103,7 @@ func classify(o *op, backend, want, got string, variantRes map[int]string) strin
 // model and to every backend, comparing every result.
 func runSequence(r *lib.Run, col *collector, idx int) {
 	rng := lib.Rng("C15/seq", uint64(idx))
-	g := &gen{rng: rng, steer: map[string]bool{}}
+	g := &gen{rng: rng, steer: map[string]bool{}, flushy: idx%3 == 0}
 	if idx%4 != 0 { // three quarters of the sequences steer around shapes listed as open findings
 		for _, tag := range []string{"snapshot-has-missing-key", "iter-no-upper-bound", "iter-unbounded-prefix", "batch-deleterange-then-store-write"} {
 			if lib.Avoid("C15:" + tag) {
@@ -1089,6 +1129,7 @@ func runSequence(r *lib.Run, col *collector, idx int) {
 			r.Note("open " + n + ": " + err.Error())
 			return
 		}
+		b.nilEmpty = idx%2 == 0
 		backs = append(backs, b)
 	}
 	alive := map[string]bool{}
@@ -1105,6 +1146,7 @@ func runSequence(r *lib.Run, col *collector, idx int) {
 	var kinds []string
 	compared := 0
 	writes, reads := 0, 0
+	snapCbErr := false
 	step := 0
 	exec := func(o *op) {
 		step++
@@ -1117,6 +1159,9 @@ func runSequence(r *lib.Run, col *collector, idx int) {
 			}
 			vres[f] = vr
 			delete(variants, f) // a variant only explains the *first* deviation from the contract
+		}
+		if o.Obj == "snap" && o.Kind == "getcberr" && want == "cberr" {
+			snapCbErr = true
 		}
 		line := fmt.Sprintf("#%d %s -> %s", step, o.String(), want)
 		script = append(script, line)
@@ -1159,7 +1204,7 @@ func runSequence(r *lib.Run, col *collector, idx int) {
 					}
 				}
 			}
-			cl := classify(o, b.name, want, got[b.name], vres)
+			cl := classify(o, b.name, want, got[b.name], vres, snapCbErr)
 			col.add(divergence{Class: cl, Backend: b.name, Case: idx, Step: step, Call: o.String(), Expected: want,
 				Observed: got[b.name], ErrText: b.lastErr, Others: others, Script: append([]string{}, script...)})
 		}
